@@ -299,7 +299,7 @@ func main() {
 					}
 					plan := []struct {
 						label, name, id string
-						d                map[string]interface{}
+						d               map[string]interface{}
 					}{
 						{"c-add", "AddFact", "canary1", canaryFact},
 						{"c-get", "GetFact", "canary1", nil},
